@@ -124,6 +124,35 @@ Fixpoint fexec (fbody : list fstmt) (body : list stmt) (st : list Z) (n : fnode)
 
 Definition gen_file_calc (fbody : list fstmt) (body : list stmt) st n chunking := fexec fbody body st n chunking None None.
 
+(* --- back ends whose handles of one file SHARE a reading position ---
+   afero's tarfs copies its file object on Open: every handle of a file reads through the same reader, so the bytes a
+   handle sees are those nobody has consumed yet — unless the handle is rewound when it is opened.  [sh_pos] = number of
+   bytes already consumed through any handle of the file. *)
+Record shfile := mkSh { sh_content : list Z; sh_pos : nat }.
+
+Inductive shop :=
+  | ShRead (k : nat)      (* an earlier user opens the file and reads k bytes of it (ReadFile: all of them) *)
+  | ShHash.               (* an earlier hash calculation of the same file *)
+
+Definition sh_open (rewinds : bool) (f : shfile) : shfile := if rewinds then mkSh (sh_content f) 0 else f.
+
+Definition sh_read (k : nat) (f : shfile) : list Z * shfile :=
+  let got := firstn k (skipn (sh_pos f) (sh_content f)) in
+  (got, mkSh (sh_content f) (sh_pos f + length got)).
+
+Definition sh_read_all (f : shfile) : list Z * shfile := sh_read (length (sh_content f)) f.
+
+Definition sh_step (rewinds : bool) (f : shfile) (o : shop) : shfile :=
+  match o with
+  | ShRead k => snd (sh_read k (sh_open rewinds f))
+  | ShHash => snd (sh_read_all (sh_open rewinds f))
+  end.
+
+(* hashing the file: calculateFile opens a handle and hashes what that handle delivers up to its end *)
+Definition sh_file_hash (rewinds : bool) (fbody : list fstmt) (body : list stmt) (st : list Z) (f : shfile)
+           (chunking : list Z -> list ev) : option (list Z) * list Z :=
+  gen_file_calc fbody body st (FFile (fst (sh_read_all (sh_open rewinds f)))) chunking.
+
 (* --- correspondence ---
    The harness runs a history and then a final successful calculation on the real hasher (six algorithms) and
    searches the smallest L such that  observed digest = reference digest (last L bytes ever delivered before ++ content).
